@@ -19,6 +19,7 @@ package eip712
 import (
 	"bytes"
 	"context"
+	"encoding/json"
 	"fmt"
 	"sort"
 	"strconv"
@@ -37,6 +38,16 @@ type TypedData struct {
 	PrimaryType string                 `ffstruct:"TypedData" json:"primaryType"`
 	Domain      map[string]interface{} `ffstruct:"TypedData" json:"domain"`
 	Message     map[string]interface{} `ffstruct:"TypedData" json:"message"`
+}
+
+// UnmarshalJSON keeps JSON numbers in the domain and message as json.Number, so that
+// integers reach the integer parser as their exact text instead of being rounded
+// through float64 (which silently changes any value above 2^53).
+func (t *TypedData) UnmarshalJSON(b []byte) error {
+	type typedData TypedData // no methods: default struct decoding
+	d := json.NewDecoder(bytes.NewReader(b))
+	d.UseNumber()
+	return d.Decode((*typedData)(t))
 }
 
 type TypeMember struct {
@@ -268,6 +279,11 @@ func encodeElement(ctx context.Context, typeName string, v interface{}, allTypes
 		return nil, err
 	}
 	baseType := tc.ElementaryType().BaseType()
+	if n, isNumber := v.(json.Number); isNumber && baseType != abi.BaseTypeInt && baseType != abi.BaseTypeUInt {
+		// Only the integer types take a JSON number. The other readers keep seeing
+		// (and rejecting) the float64 they were given before numbers were preserved.
+		v, _ = n.Float64()
+	}
 	switch baseType {
 	case abi.BaseTypeAddress, abi.BaseTypeBool, abi.BaseTypeInt, abi.BaseTypeUInt:
 		return abiEncode(ctx, tc, v, breadcrumbs)
